@@ -499,6 +499,10 @@ pub fn register(reg: &mut Registry) {
         "BadEvolution",
         Ty::Record(Arc::new(RecordSchema { name: "BadEvolution".into(), fields: vec![f::<u8>("a", false)], steps: vec![Step::MadeOptional("nope".into())] })),
     );
+    refmodel::register("BigEnum", Ty::Enum(Arc::new(schema_bigenum())));
+    refmodel::register("BigEnumSorted", Ty::Enum(Arc::new(schema_bigenumsorted())));
+    reg.add_tagged::<BigEnum>("BigEnum", &["special:limits", "enum"]);
+    reg.add_tagged::<BigEnumSorted>("BigEnumSorted", &["special:limits", "enum", "sorted_constructors"]);
     reg.add_tagged::<MaxSteps>("MaxSteps", &["special:limits"]);
     // not registered as an ordinary subject (it can never be encoded): C17 addresses it by name
     reg.add_tagged::<BadEvolution>("BadEvolution", &["special:unencodable"]);
